@@ -359,7 +359,7 @@ class linkseq(LinkSequence[_T], MutableSequence[_T]):
             arrival = value
             departure = self._link_at(index)
             self._hook_check((arrival,), (departure.value,))
-            departure.value = arrival
+            self._revalue((departure,), (arrival,))
             return
 
         if isinstance(i, slice):
@@ -371,9 +371,7 @@ class linkseq(LinkSequence[_T], MutableSequence[_T]):
             if not len(range_):
                 return
             self._hook_check(arrivals, self[slice_])
-            link_it = iter_links_sliced(self, slice_)
-            for link, arrival in zip(link_it, arrivals):
-                link.value = arrival
+            self._revalue(iter_links_sliced(self, slice_), arrivals)
             return
 
         raise Emsg.InstCheck(i, (SupportsIndex, slice))
@@ -395,6 +393,11 @@ class linkseq(LinkSequence[_T], MutableSequence[_T]):
              self.__link_last__, self.__link_first__)
 
     #******  Link update methods
+
+    def _revalue(self, links, values, /) -> None:
+        'Assign new values to links that are already in the collection.'
+        for link, value in zip(links, values):
+            link.value = value
 
     def _seed(self, link: Link, /) -> None:
         """Add the link as the intial (only) member. This is called by ``__setitem__``,
@@ -550,6 +553,17 @@ class linqset(linkseq[_T], MutableSequenceSet[_T]):
         super()._unlink(link)
         del self.__table[link.value]
 
+    def _revalue(self, links, values, /) -> None:
+        # Keep the hash table in step: drop all departing values first, since
+        # the arrivals may be a permutation of them.
+        links = tuple(links)
+        table = self.__table
+        for link in links:
+            del table[link.value]
+        super()._revalue(links, values)
+        for link in links:
+            table[link.value] = link
+
     def clear(self):
         super().clear()
         self.__table.clear()
@@ -566,3 +580,10 @@ class linqset(linkseq[_T], MutableSequenceSet[_T]):
             departures.__contains__,
             filter(self.__contains__, arrivals)):
             raise Emsg.DuplicateValue(v)
+        if len(arrivals) > 1:
+            # Arrivals must also be distinct from each other.
+            seen = set()
+            for v in arrivals:
+                if v in seen:
+                    raise Emsg.DuplicateValue(v)
+                seen.add(v)
